@@ -607,6 +607,10 @@ static int analyze_struct(fb_parser_t *P, fb_compound_type_t *ct)
     }
     /* Add trailing padding if necessary. */
     ct->size = fb_align(ct->size, ct->align);
+    if (ct->size > FLATCC_STRUCT_MAX_SIZE) {
+        error_sym(P, &ct->symbol, "struct size with trailing padding exceeds maximum allowed struct size");
+        return -1;
+    }
 
     if (ct->size == 0) {
         error_sym(P, &ct->symbol, "struct cannot be empty");
